@@ -86,12 +86,35 @@ static int _yr_arena_make_ptr_relocatable(
   // function are obtained with offsetof().
   offset = va_arg(offsets, size_t);
 
+  // Last entry of the list before this call. If an allocation fails the
+  // entries added so far by this call are removed again, so that the list
+  // never describes only some of the pointers of a struct.
+  YR_RELOC* old_tail = arena->reloc_list_tail;
+
   while (offset != EOL)
   {
     YR_RELOC* reloc = (YR_RELOC*) yr_malloc(sizeof(YR_RELOC));
 
     if (reloc == NULL)
+    {
+      reloc = (old_tail != NULL) ? old_tail->next : arena->reloc_list_head;
+
+      while (reloc != NULL)
+      {
+        YR_RELOC* next = reloc->next;
+        yr_free(reloc);
+        reloc = next;
+      }
+
+      if (old_tail != NULL)
+        old_tail->next = NULL;
+      else
+        arena->reloc_list_head = NULL;
+
+      arena->reloc_list_tail = old_tail;
+
       return ERROR_INSUFFICIENT_MEMORY;
+    }
 
     reloc->buffer_id = buffer_id;
     reloc->offset = base_offset + (yr_arena_off_t) offset;
@@ -399,6 +422,12 @@ int yr_arena_allocate_struct(
       arena, buffer_id, r.offset, field_offsets);
 
   va_end(field_offsets);
+
+  // Without its relocation entries the struct is unusable, give its memory
+  // back instead of leaving a zeroed struct in the buffer (in the externals
+  // table a zeroed entry is the end-of-table marker).
+  if (result != ERROR_SUCCESS)
+    arena->buffers[buffer_id].used -= size;
 
   if (result == ERROR_SUCCESS && ref != NULL)
   {
